@@ -3,10 +3,10 @@ from props.common import *
 from props.profiles_common import *
 import os
 
-ASSUMPTIONS = ['"never drifts" for the username and OpaqueString profiles is proved under ONE named hypothesis about the external normalizer, NfcIdempotent (nfc (nfc t) = nfc t, a UAX #15 guarantee), which is not proved for the model; it is exercised by re-enforcing every output of the correspondence run and of the exhaustive single-code-point sweep',
+ASSUMPTIONS = ['no assumption about the normalizer remains: idempotence of NFC/NFKC is PROVED for the normalizer model over the tables dumped from the crate on every run (Lemmas/NfcIdem.lean: nfc_idem, nfkc_idem; tables_ok by decide +kernel); the model itself is tied to the crate by the correspondence (every enforce result) and by re-enforcing every output',
                'the forbidden-set tables (Gen/Forb) are dumped from the running classification and proved equal to the model classification for every code point of Unicode']
-TRUSTED = ['Lean model of NFC (Model/Normalize.lean) validated against the crate by the correspondence; closure lemma nfc_closed is about that model']
-FACT_MODULES = ['Precis.Facts.Closure', 'Precis.Facts.ForbId', 'Precis.Facts.ForbFf', 'Precis.Facts.Closure2', 'Precis.Props.C08Drift']
+TRUSTED = ['Lean model of NFC (Model/Normalize.lean) validated against the crate by the correspondence; closure lemma nfc_closed and idempotence nfc_idem are about that model']
+FACT_MODULES = ['Precis.Facts.Closure', 'Precis.Facts.ForbId', 'Precis.Facts.ForbFf', 'Precis.Facts.Closure2', 'Precis.Props.C08Drift', 'Precis.Lemmas.NfcIdem']
 KNOWN_ID = 'cherokee-lowercase'
 
 
